@@ -50,7 +50,8 @@ func checkRuntime(c *Ctx, prop string) {
 	if prop == "C09" {
 		rtReEnable(c, c.scale(40, 1000))
 	}
-	if prop == "C07" {
+	if prop == "C07" || prop == "C04" {
+		// (C04: a rejected update's blocking report returns the error also when the watcher sits behind a wrapper)
 		// a blocking report made through a transforming wrapper (tag reformatting source around a watcher or a
 		// Blank) must keep its meaning: the C20 stream with a real wrapped Dials next to a native one
 		for i := c.scale(25, 400); i > 0; i-- {
